@@ -129,12 +129,53 @@ def seeded(argv):
     return 0 if bad == 0 else 1
 
 
+def benign(argv):
+    """False-alarm test: property-preserving changes kept in /verif/benign/<id>/ (patch.diff,
+    meta.json with the checks to run) are applied to a scratch copy; every listed check must
+    exit 0."""
+    only = set(a for a in argv if not a.startswith("-"))
+    budget = float(os.environ.get("VERIF_SELFTEST_BUDGET_S", "30"))
+    base = os.path.join(VERIF_ROOT, "benign")
+    rows, bad = [], 0
+    for sid in sorted(os.listdir(base)) if os.path.isdir(base) else []:
+        meta_p = os.path.join(base, sid, "meta.json")
+        if not os.path.exists(meta_p) or (only and sid not in only):
+            continue
+        meta = kernel.read_json(meta_p)
+        root = make_copy()
+        try:
+            p = subprocess.run(["patch", "-p1", "-s", "-d", root, "-i", os.path.join(base, sid, "patch.diff")],
+                               stdout=subprocess.PIPE, stderr=subprocess.STDOUT, text=True)
+            if p.returncode != 0:
+                print(f"ERROR    {sid}: patch does not apply: {p.stdout[-200:]}")
+                bad += 1
+                continue
+            alarms = []
+            for prop in meta["checks"]:
+                rc, out, dt = run_check_against(root, prop, budget)
+                if rc != 0:
+                    lines = [l for l in out.splitlines() if l.startswith("  class=") or "HARNESS-ERROR" in l]
+                    alarms.append(f"{prop}: rc={rc} {(lines[0].strip() if lines else out.strip().splitlines()[-1])[:160]}")
+            if alarms:
+                bad += 1
+            rows.append({"id": sid, "checks": meta["checks"], "alarms": alarms})
+            print(f"{'QUIET   ' if not alarms else 'ALARM   '} {sid:<46} checks={','.join(meta['checks'])} {' | '.join(alarms)}", flush=True)
+        finally:
+            shutil.rmtree(root, ignore_errors=True)
+    if not only:
+        kernel.write_json(os.path.join(VERIF_ROOT, "selftest_benign.json"), {"rows": rows, "false_alarms": bad})
+    print(f"benign: {len(rows) - bad}/{len(rows)} property-preserving changes pass all their checks")
+    return 0 if bad == 0 else 1
+
+
 def main(argv):
     if not argv:
         eprint("usage: check selftest determinism|sensitivity [ids]")
         return 2
     if argv[0] == "sensitivity":
         return sensitivity(argv[1:])
+    if argv[0] == "benign":
+        return benign(argv[1:])
     if argv[0] == "seeded":
         return seeded(argv[1:])
     if argv[0] == "determinism":
